@@ -591,6 +591,27 @@ def claimed():
     return sorted(PLANS)
 
 
+def _with_std(jobs):
+    """The crate officially supports the `std` cargo feature: every engine that runs in the release profile also
+    runs once with micromap built with `--features std` (code behind `cfg(feature = "std")` is otherwise never
+    executed), unless the plan already has a std job for that engine."""
+    have = {j.get('bin') for j in jobs if j.get('variant') in ('rel-std', 'dbg-std')}
+    out = list(jobs)
+    for j in jobs:
+        if j.get('gate') or j.get('variant') != 'rel' or j['bin'] in have or j['bin'] == 'eng_serde':
+            continue
+        have.add(j['bin'])
+        c = dict(j)
+        c['variant'] = 'rel-std'
+        c['label'] = 'rel-std/' + j['label'].split('/', 1)[-1]
+        if j['budget'] > 1:
+            c['budget'] = max(1000, j['budget'] // 4)
+            c['shards'] = max(2, j['shards'] // 2)
+        c['cost'] = COST.get('rel-std', 1)
+        out.append(c)
+    return out
+
+
 def jobs_for(pid, tier):
-    return PLANS[pid]['jobs'](tier)
+    return _with_std(PLANS[pid]['jobs'](tier))
 NOT_APPLICABLE = {}
